@@ -1,6 +1,6 @@
 use miette::{IntoDiagnostic, Result};
-use std::fs::{File, OpenOptions};
-use std::io::{Read, Write};
+use std::fs::File;
+use std::io::Read;
 use std::path::Path;
 
 pub fn write_file_if_changed<T: AsRef<Path>>(path: T, data: &[u8]) -> Result<bool> {
@@ -11,13 +11,8 @@ pub fn write_file_if_changed<T: AsRef<Path>>(path: T, data: &[u8]) -> Result<boo
         }
     }
 
-    let mut file = OpenOptions::new()
-        .create(true)
-        .write(true)
-        .truncate(true)
-        .open(path.as_ref())
-        .into_diagnostic()?;
-    file.write_all(data).into_diagnostic()?;
-    file.flush().into_diagnostic()?;
+    // Temp file + rename: a crash mid-write must never leave a truncated output,
+    // because `Incremental::dst_is_stale` trusts an existing file.
+    veryl_path::atomic_write(path.as_ref(), data).into_diagnostic()?;
     Ok(true)
 }
